@@ -9,7 +9,9 @@ HARNESS_ARGS = ["c05"]
 COQ_IMPORTS = "From PV Require Import Model.Ingest Lib.IngestObs Oracle.C05."
 COQ_SHARD = 150
 TECHNIQUE = ("Coq proof (low-water-mark invariant preserved by every later delivery, by induction over the delivery list) + differential "
-             "correspondence of the Gallina model with the real ingest_operation + LogPrune on an in-memory SqliteStore")
+             "correspondence of the Gallina model with the real ingest_operation + LogPrune on an in-memory SqliteStore; overlapping "
+             "ingest calls: Coq proof of serialisability for all interleavings of the calls' await points + hand-polled / join_all / "
+             "spawned ingest_operation futures on in-memory and file-backed stores compared with the model's sequential outcomes")
 LEVEL_TEXT = ("Theorem C05_no_resurrection is proved in Coq for every well-formed history (non-equivocating authors) and every "
               "continuation after a prune point was ingested: any later deliveries in any order, older prune points, duplicates, forged "
               "copies; no size bound. C05_old_prune_point_rejected is the repaired check of validate_prunable_backlink; "
@@ -17,21 +19,123 @@ LEVEL_TEXT = ("Theorem C05_no_resurrection is proved in Coq for every well-forme
               "as a machine-checked witness against the old function. The model is tied to p2panda-core/src/prune.rs, "
               "p2panda-stream/src/ingest/operation.rs and log_prune/processor.rs on every run (all delivery orders of logs with 2-4 prune "
               "points, random histories with late re-delivery of older prune points), the oracle is evaluated on the implementation's "
-              "get_log_entries dumps after every delivery.")
+              "get_log_entries dumps after every delivery. Overlapping ingest_operation calls on one store: "
+              "C05_concurrent_ingest_serialisable / _prefix_serialisable (every interleaving of the calls' await points, permit acquired "
+              "before the tip is read, equals a sequential order of the calls, rows in commit order), C05_no_resurrection_concurrent, "
+              "C05_concurrent_commit_order_increasing are proved; C05_concurrent_stale_tip_refuted is a witness against the variant that "
+              "reads the tip before begin(). Tied to the code by concurrent cases (hand-polled futures in scenario order, join_all and "
+              "spawned tasks on a multi-thread runtime; in-memory and file-backed store): the observed results, rowid (commit) order and "
+              "logs must be one of the model's sequential outcomes.")
 LEVEL_NOTE = ("Trusted: Coq kernel + vm_compute; hand-written model; SQLite semantics; validate_operation abstract; pipeline composition "
               "done by the harness as in pipeline.rs (the real composition is C04's harness). Differential testing bounded by generators.")
 ASSUMPTIONS = ["wf_history (hash field = header hash for validated operations, collision-free header hash, non-equivocation)",
-               "single writer: ingest and log-prune of one event are not interleaved with another event's (pipeline processes events one by one)"]
+               "ingest calls may overlap (modelled at their await points); the log-prune step of an event is not interleaved with another "
+               "event's transaction (pipeline processes events one by one)",
+               "transaction permit: binary semaphore, released only after commit/rollback finished; uncommitted writes invisible to other calls"]
 TRUSTED = ["modelled not verified: SQLite DELETE ... seq_num < ?, sqlx transactions"]
-RULE = ("quick: all delivery orders of one 4-entry log for the 11 flag patterns with >= 2 prune points, of six 5-entry logs with 2-4 prune "
+RULE = ("concurrent cases first (prune points 5/3 overlapping in both orders x empty/prefilled store x mem/file x hand schedules, "
+        "join_all, spawn; duplicates; normal operations; two logs; random batches; non-trivial = a prune point overlaps with a call of "
+        "the same log at or below it). quick: all delivery orders of one 4-entry log for the 11 flag patterns with >= 2 prune points, of six 5-entry logs with 2-4 prune "
         "points, 300 random prune-heavy histories with late re-delivery; the finding's witness first; thorough: all orders of all 26 "
         "5-entry patterns with >= 2 prune points, two 6-entry patterns, 2000 random. non-trivial = a prune point was ingested and a later "
         "delivery of an operation of the same log with a smaller sequence number was attempted")
 NONTRIVIAL_FLOOR = 50
 
 
+# ---------------------------------------------------------------- concurrent cases
+# A concurrent case is a sequential case plus
+#   "cb"    the batch: indices into ops, one overlapping ingest_operation call each
+#   "sched" poll order for mode "hand" (indices into cb; afterwards round-robin)
+#   "mode"  "hand" | "join" | "spawn"       "db"  "mem" | "file"
+
+def conc_case(flags, pre, cb, sched, mode="hand", db="mem", logs=1):
+    ops = []
+    for l in range(logs):
+        L.chain(ops, 0, l, flags)
+    return {"na": 1, "nl": logs, "ops": ops, "ds": list(pre), "cb": list(cb), "sched": list(sched), "mode": mode, "db": db}
+
+
+def hand_schedules(k):
+    """Interleavings of k calls: who is polled first, alternation, one call far ahead of the others."""
+    rr = list(range(k)) * 14
+    out = [rr, list(reversed(range(k))) * 14]
+    for i in range(k):
+        others = [j for j in range(k) if j != i]
+        out.append([i] * 30 + others * 14)                 # call i runs to completion first
+        out.append([i] + others + [i] * 30)                # i reads first, the others start, i finishes
+        out.append([i, i] + others * 2 + [i] * 30)
+        out.append(others + [i] * 3 + others * 3 + [i] * 30)
+    return out
+
+
+def conc_fixed(tier):
+    flags = [0, 0, 0, 1, 0, 1]
+    # prune points 5 and 3 concurrently, both orders, on an empty store and after a prefix
+    for pre in ([], [0], [0, 1, 2]):
+        for cb in ([5, 3], [3, 5]):
+            for db in ("mem", "file"):
+                scheds = hand_schedules(2)
+                if tier == "quick":
+                    scheds = scheds[:6] if (pre == [] or db == "mem") else scheds[:2]
+                for sch in scheds:
+                    yield conc_case(flags, pre, cb, sch, "hand", db)
+                yield conc_case(flags, pre, cb, [], "join", db)
+            yield conc_case(flags, pre, cb, [], "spawn", "file")
+    # duplicates concurrently
+    for cb in ([5, 5], [3, 3, 3], [0, 0]):
+        for db in ("mem", "file"):
+            for sch in hand_schedules(len(cb))[:3]:
+                yield conc_case(flags, [], cb, sch, "hand", db)
+            yield conc_case(flags, [], cb, [], "join", db)
+    # normal operations concurrently, with and without the prune points
+    for pre, cb in (([0], [1, 2]), ([0], [2, 1]), ([0, 1], [2, 3, 4]), ([0, 1, 2], [5, 3, 4]), ([0, 1, 2], [4, 3, 5]),
+                    ([0, 1, 2, 3], [1, 2, 5]), ([0, 1, 2, 3], [5, 4, 0]), ([3], [5, 4, 3])):
+        for db in ("mem", "file"):
+            for sch in hand_schedules(len(cb))[: (3 if tier == "quick" else 12)]:
+                yield conc_case(flags, pre, cb, sch, "hand", db)
+        yield conc_case(flags, pre, cb, [], "join", "mem")
+        yield conc_case(flags, pre, cb, [], "spawn", "file")
+    # two logs of one author
+    yield conc_case([0, 1, 0, 1], [0], [3, 1, 7, 5], list(range(4)) * 10, "hand", "file", logs=2)
+    yield conc_case([0, 1, 0, 1], [4], [1, 3, 5, 7], [3, 2, 1, 0] * 10, "hand", "mem", logs=2)
+
+
+def conc_random(rng):
+    n = rng.randint(3, 6)
+    flags = [1 if rng.random() < 0.5 else 0 for _ in range(n)]
+    logs = 1 if rng.random() < 0.75 else 2
+    total = n * logs
+    pre = [i for i in range(total) if rng.random() < 0.35]
+    if rng.random() < 0.3:
+        rng.shuffle(pre)
+    k = rng.randint(2, 4)
+    cb = [rng.randrange(total) for _ in range(k)]
+    if rng.random() < 0.6:
+        # make sure two prune points (or a prune point and something below it) of one log overlap
+        ps = [i for i in range(n) if flags[i]]
+        if ps:
+            hi = max(ps)
+            cb[0] = hi
+            cb[1] = rng.randrange(hi + 1)
+            if rng.random() < 0.5:
+                cb[0], cb[1] = cb[1], cb[0]
+    mode = rng.choice(["hand", "hand", "hand", "join", "spawn"])
+    db = rng.choice(["mem", "file"])
+    sched = [rng.randrange(k) for _ in range(rng.randint(0, 24))]
+    if rng.random() < 0.3:
+        sched = [rng.randrange(k)] * rng.randint(1, 12) + sched
+    return conc_case(flags, pre, cb, sched, mode, db, logs=logs)
+
+
+def is_conc(case):
+    return "cb" in case
+
+
 def gen(tier, rng):
     if tier == "quick":
+        yield from conc_fixed("quick")
+        for _ in range(40):
+            yield conc_random(rng)
         for flags in itertools.product([0, 1], repeat=4):
             if sum(flags) >= 2:
                 yield from L.single_log_permutations(list(flags))
@@ -40,6 +144,9 @@ def gen(tier, rng):
         for _ in range(300):
             yield L.random_history(rng, prune_p=0.5, late_p=0.8)
     else:
+        yield from conc_fixed("thorough")
+        for _ in range(600):
+            yield conc_random(rng)
         for flags in itertools.product([0, 1], repeat=5):
             if sum(flags) >= 2:
                 yield from L.single_log_permutations(list(flags))
@@ -49,31 +156,148 @@ def gen(tier, rng):
             yield L.random_history(rng, big=True, prune_p=0.5, late_p=0.8)
 
 
-harness_line = L.harness_line
+def harness_line(case):
+    if not is_conc(case):
+        return L.harness_line(case)
+    base = L.harness_line(case)          # "<na> <nl>|ops|ds"
+    return "C %s %s %s|%s|%s" % (case["db"], case["mode"], base, " ".join(map(str, case["cb"])), " ".join(map(str, case["sched"])))
 
 
 def coq_model(case):
+    if is_conc(case):
+        return "model_line_conc %s %s %s %s %s" % (L.N(case["na"]), L.N(case["nl"]), L.coq_ops(case), L.coq_nats(case["ds"]),
+                                                   L.coq_nats(case["cb"]))
     return "model_line %s %s %s %s" % (L.N(case["na"]), L.N(case["nl"]), L.coq_ops(case), L.coq_nats(case["ds"]))
 
 
+def split_conc(impl):
+    """-> (sequential part, 'B=../ins=../before/after', info)"""
+    parts = impl.split(" ;; ")
+    if len(parts) < 2:
+        raise ValueError("no concurrent part")
+    return parts[0], parts[1], (parts[2] if len(parts) > 2 else "")
+
+
+def parse_conc(case, conc):
+    f = conc.split("/")
+    if len(f) != 4 or not f[0].startswith("B=") or not f[1].startswith("ins="):
+        raise ValueError("concurrent part malformed")
+    cres = [x for x in f[0][2:].split(",") if x]
+    r = L.resolve(case["ops"])
+    ins = []
+    for t in [x for x in f[1][4:].split(",") if x]:
+        j = int(t) - 1
+        if j < 0 or j >= len(r):
+            raise ValueError("unknown row inserted")
+        o = r[j]
+        ins.append({"a": o["a"], "l": o["l"], "seq": o["seq"], "id": o["id"], "hh": o["hh"], "bl": o["bl"], "p": bool(o["p"]),
+                    "body": bool(o["body"])})
+    _b, st = L.parse_impl("V= ; X/%s ; X/%s" % (f[2], f[3]))
+    return cres, ins, st[0][1], st[1][1]
+
+
+def rows(rs):
+    return "[" + ";".join(L.coq_row(r) for r in rs) + "]"
+
+
 def coq_oracle(case, impl):
+    if is_conc(case):
+        seqp, conc, _info = split_conc(impl)
+        _bits, steps = L.parse_impl(seqp)
+        cres, ins, before, after = parse_conc(case, conc)
+        return "check_conc %s %s %s %s [%s] %s %s %s" % (L.coq_ops(case), L.coq_nats(case["ds"]), L.coq_obs(steps), L.coq_nats(case["cb"]),
+                                                        ";".join(L.coq_res(x) for x in cres), rows(ins), rows(before), rows(after))
     _bits, steps = L.parse_impl(impl)
     return "check %s %s %s" % (L.coq_ops(case), L.coq_nats(case["ds"]), L.coq_obs(steps))
 
 
-def nontrivial(case, impl):
-    r = L.resolve(case["ops"])
-    steps = impl.split(" ; ")[1:]
+def agree(case, impl, model):
+    """Sequential cases: same line.  Concurrent cases: same sequential part, and the batch's outcome
+    (results, commit order of the inserted rows, logs before/after the prune steps) is the outcome of
+    one of the sequential orders of the batch computed by the model."""
+    if not is_conc(case):
+        return impl == model
+    try:
+        seqp, conc, _info = split_conc(impl)
+    except ValueError:
+        return False
+    mparts = model.split(" ;; ")
+    if len(mparts) != 2:
+        return False
+    return seqp == mparts[0] and conc in mparts[1].split(" || ")
+
+
+def _seq_nontrivial(ops, ds, steps):
+    r = L.resolve(ops)
     marks = []
-    for d, st in zip(case["ds"], steps):
+    for d, st in zip(ds, steps):
         o = r[d]
         if any(m[0] == o["a"] and m[1] == o["l"] and o["seq"] < m[2] for m in marks):
-            return True
+            return True, marks
         if o["p"] and st.split("/")[0] in ("I", "A"):
             marks.append((o["a"], o["l"], o["seq"]))
-    return False
+    return False, marks
 
 
-shrink = L.shrink
-distribution = L.distribution
+def nontrivial(case, impl):
+    if is_conc(case):
+        # a prune point overlaps with a call for the same log at or below it (or a delivered prune
+        # point lies above a call of the batch)
+        try:
+            seqp, _conc, _info = split_conc(impl)
+        except ValueError:
+            return False
+        r = L.resolve(case["ops"])
+        _nt, marks = _seq_nontrivial(case["ops"], case["ds"], seqp.split(" ; ")[1:])
+        b = [r[i] for i in case["cb"]]
+        for x, o in enumerate(b):
+            if any(m[0] == o["a"] and m[1] == o["l"] and o["seq"] < m[2] for m in marks):
+                return True
+            for y, q in enumerate(b):
+                if x != y and q["p"] and q["valid"] and (q["a"], q["l"]) == (o["a"], o["l"]) and o["seq"] <= q["seq"]:
+                    return True
+        return False
+    return _seq_nontrivial(case["ops"], case["ds"], impl.split(" ; ")[1:])[0]
+
+
+def shrink(case):
+    if not is_conc(case):
+        yield from L.shrink(case)
+        return
+    ds, cb, sched = case["ds"], case["cb"], case["sched"]
+    for i in range(len(ds)):
+        yield dict(case, ds=ds[:i] + ds[i + 1:])
+    if len(cb) > 2:
+        for i in range(len(cb)):
+            yield dict(case, cb=cb[:i] + cb[i + 1:], sched=[x - (1 if x > i else 0) for x in sched if x != i])
+    # the label list is kept: which interleaving is reached depends on it (and a shorter one makes the
+    # failure timing-dependent), a replay should poll exactly as the failing run did
+
+
+def distribution(cases, impl):
+    seq_cases, seq_impl = [], {}
+    conc = {"cases": 0, "by_mode_db": {}, "batch_results": {}, "hangs": 0}
+    for i, c in enumerate(cases):
+        if is_conc(c):
+            conc["cases"] += 1
+            k = "%s/%s" % (c["mode"], c["db"])
+            conc["by_mode_db"][k] = conc["by_mode_db"].get(k, 0) + 1
+            line = impl.get(i)
+            if line and " ;; " in line:
+                b = line.split(" ;; ")[1].split("/")[0]
+                for x in b[2:].split(","):
+                    conc["batch_results"][x] = conc["batch_results"].get(x, 0) + 1
+                    if x == "HANG":
+                        conc["hangs"] += 1
+        else:
+            if i in impl:
+                seq_impl[len(seq_cases)] = impl[i]
+            seq_cases.append(c)
+    d = L.distribution(seq_cases, seq_impl)
+    conc["by_mode_db"] = dict(sorted(conc["by_mode_db"].items()))
+    conc["batch_results"] = dict(sorted(conc["batch_results"].items()))
+    d["concurrent"] = conc
+    return d
+
+
 REGISTERED = True
